@@ -238,4 +238,18 @@ Lemma horner_eig (V T : 'M[F]_k.+1) (lam : 'rV[F]_k.+1) (p : {poly F}) :
   V \in unitmx -> T = V *m diag_mx lam *m invmx V ->
   horner_mx T p = V *m diag_mx (map_mx (horner p) lam) *m invmx V.
 Proof. by move=> uV ->; rewrite horner_mx_uconj // horner_mx_diag. Qed.
+
+(* full-dimension form for polynomial f: if T = Q^T At Q with Q orthogonal, then
+   e_1^T p(T) e_1 = u^T p(At) u  with  u = Q e_1 (the first column of Q) *)
+Lemma poly_full_dimension (Q At : 'M[F]_k.+1) (p : {poly F}) :
+  Q^T *m Q = 1%:M ->
+  (horner_mx (Q^T *m At *m Q) p) 0 0 = ((col 0 Q)^T *m horner_mx At p *m col 0 Q) 0 0.
+Proof.
+move=> QtQ.
+have uQ : Q \in unitmx by case: (mulmx1_unit QtQ).
+have Qi : invmx Q = Q^T by rewrite -[LHS]mul1mx -QtQ mulmxK.
+rewrite -Qi horner_mx_uconjC // Qi.
+rewrite -!mulmxA !mxE; apply: eq_bigr => i _; rewrite !mxE; congr (_ * _).
+by apply: eq_bigr => j _; rewrite !mxE.
+Qed.
 End SLQ.
